@@ -514,11 +514,11 @@ func C09(r *ck.Run) {
 	if r.Thorough() {
 		depth = 5
 	}
-	r.Rule(fmt.Sprintf("breadth-first search over every program of length <= %d of put / refused put (short body) / delete / delete-by-version (newest, oldest, middle, null, a delete marker, unknown id) / copy / copy-by-version / multipart-complete / suspend / enable on two keys, from a fresh versioning-enabled bucket, from a bucket whose object predates enabling (null version) and from a bucket whose key has a version plus a newer null version written while suspended, on a real posix backend with versioning directory; a state is the shortest program reaching it, successors are computed by replay, states are deduplicated on (reference version model with ids canonicalised, file counts); after EVERY step a second backend instance checks GET by key, GET and HEAD by every version id, and ListObjectVersions with max-keys 1, 2, 1000 following the returned markers against the reference model; distinct = distinct state", depth))
+	r.Rule(fmt.Sprintf("breadth-first search over every program of length <= %d of put / refused put (short body) / delete / delete-by-version (newest, oldest, middle, null, a delete marker, unknown id) / copy / copy-by-version / multipart-complete / suspend / enable on two keys, from a fresh versioning-enabled bucket, from a bucket whose object predates enabling (null version) and from a bucket whose key has a version plus a newer null version written while suspended, on a real posix backend with versioning directory (xattr and sidecar metadata); a state is the shortest program reaching it, successors are computed by replay, states are deduplicated on (reference version model with ids canonicalised, file counts); after EVERY step a second backend instance checks GET by key, GET and HEAD by every version id, and ListObjectVersions with max-keys 1, 2, 1000 following the returned markers against the reference model; distinct = distinct state", depth))
 	r.Assume("operations are at least one clock tick apart (file mtimes are pinned to a logical clock after each step); a DELETE without id of a key that has no versions may or may not create a marker (the answer says which); deleting an unknown version id may fail or be a no-op")
-	cfgs := []pxCfg{{Versioning: true}}
+	cfgs := []pxCfg{{Versioning: true}, {Versioning: true, Sidecar: true}}
 	if r.Thorough() {
-		cfgs = append(cfgs, pxCfg{Versioning: true, NoTmp: true})
+		cfgs = append(cfgs, pxCfg{Versioning: true, NoTmp: true}, pxCfg{Versioning: true, NoTmp: true, Sidecar: true})
 	}
 	alpha := c09Alphabet(r.Thorough())
 	vals := []wval{mkval(0), mkval(1), mkval(2), mkval(3), mkval(4)}
